@@ -1,5 +1,6 @@
 import GeoVerif.Proofs.DMSClosure
 import GeoVerif.Proofs.DMSRound
+import GeoVerif.Proofs.DMSStrVal
 import Mathlib.Tactic.Ring
 import Mathlib.Tactic.FieldSimp
 import Mathlib.Tactic.Linarith
@@ -207,5 +208,159 @@ theorem roundtrip_second (s : Bool) (m : ℕ) (e : ℤ) (hx : F64.IsRep (F64.fin
     rw [hsc]
     rw [← hs] at hbound
     exact hbound
+
+
+theorem roundtrip_minute (s : Bool) (m : ℕ) (e : ℤ) (hx : F64.IsRep (F64.fin s m e)) (hb : |(F64.fin s m e).val| < 2 ^ 40)
+    (p : ℕ) (ind : Flag) (hind : ind = Flag.none ∨ ind = Flag.lat ∨ ind = Flag.lon) (sep : ℕ) (hsep : sep = 0 ∨ sep = 58) :
+    ∃ y : F64, decode (encode (F64.fin s m e) 1 p ind sep) = .ok (y, readFlag ind) ∧ y.isFinite = true ∧
+      |(y.val - (F64.fin s m e).val)| ≤ rtBound 1 p |(F64.fin s m e).val| := by
+  have hA : ind ≠ Flag.azi := by rcases hind with rfl | rfl | rfl <;> decide
+  have hN : ind ≠ Flag.num := by rcases hind with rfl | rfl | rfl <;> decide
+  obtain ⟨D, M, S, F, hD, hM, hS, hF, nD, nM, nS, hl, v1, v2, v3, v4, henc⟩ := encode_shape s m e 1 p ind sep (by omega)
+  obtain ⟨a1, a2, a3, a4, a5, a6, a7⟩ := encodeHead_bound_ms s m e hx 1 p (Or.inl rfl) ind hA
+  obtain ⟨k, hk, hk40⟩ := floor_nat |(F64.fin s m e).val| (abs_nonneg _) hb
+  rw [hk] at a5
+  have hsc : ((scaleOf 1 : ℕ) : ℚ) = 60 := by simp [scaleOf, DMSC.compMINUTE]
+  rw [hsc] at a6 a7
+  generalize hh : encodeHead (F64.fin s m e) 1 p ind = h at *
+  have hi : h.units / 10 ^ clampPrec 1 p ≤ 60 := units_div_le _ _ 60 (by exact_mod_cast a7)
+  have hcd : (splitFields 1 (h.units / 10 ^ clampPrec 1 p)).1 ≤ 1 := by rw [splitFields_one]; simp only; omega
+  have hmi : (splitFields 1 (h.units / 10 ^ clampPrec 1 p)).2.1 < 60 := by rw [splitFields_one]; simp only; omega
+  have e1 : (encFields h 1).1 = (splitFields 1 (h.units / 10 ^ clampPrec 1 p)).1 + k := by
+    simp only [encFields, a2]
+    exact degree_field _ k h.idegree a3 a5 (by omega)
+  have e2 : (encFields h 1).2.1 = (splitFields 1 (h.units / 10 ^ clampPrec 1 p)).2.1 := by simp [encFields, a2]
+  have e4 : (encFields h 1).2.2.2 = h.units % 10 ^ clampPrec 1 p := by simp [encFields, a2]
+  rw [e1] at v1; rw [e2] at v2; rw [e4] at v4
+  have hsl : slotsOf 1 D M S F = { d := numOf D, m := lastNum M F } := rfl
+  have hVeq : numVal (numOf D) + numVal (lastNum M F) / 60 + numVal ({} : Num) / 3600 =
+      (k : ℚ) + (h.units : ℚ) / (60 * 10 ^ clampPrec 1 p) := by
+    rw [numVal_numOf, numVal_lastNum, numVal_empty, v1, v2, v4, hl, zero_div, add_zero]
+    exact printed_minute h.units (clampPrec 1 p) k
+  have hV : |(numVal (numOf D) + numVal (lastNum M F) / 60 + numVal ({} : Num) / 3600 - |(F64.fin s m e).val|)| ≤
+      (1 / 2) / (60 * 10 ^ clampPrec 1 p) + (2:ℚ) ^ (-(53:ℤ)) := by
+    rw [hVeq, ← a5]; exact a6
+  obtain ⟨v, hv, hfin, hbound⟩ := roundtrip_core (readNeg ind h.neg) (slotsOf 1 D M S F) |(F64.fin s m e).val|
+    ((1 / 2) / (60 * 10 ^ clampPrec 1 p) + (2:ℚ) ^ (-(53:ℤ)))
+    (by rw [hsl]; show digitsVal 0 D < 2 ^ 41; rw [v1]; omega)
+    (by rw [hsl]; show (lastNum M F).int < 60; rw [lastNum_int, v2]; exact hmi)
+    (by rw [hsl]; show (0:ℕ) < 60; omega)
+    (by rw [hsl]; exact numOK_numOf D)
+    (by rw [hsl]; exact numOK_lastNum M F hF (by rw [hl]; exact clampPrec_le15 1 p))
+    (by rw [hsl]; exact numOK_empty)
+    (by rw [hsl]; intro hne; exact absurd numVal_empty hne) (by intro _; rfl) (by rw [hsl]; exact hV)
+  refine ⟨F64.add F64.nzero v, ?_, hfin, ?_⟩
+  · rw [henc]
+    exact decode_layout 1 sep D M S F ind h.neg v (by omega) hsep hN hD hM hS hF nD nM nS hv
+  · rw [readNeg_of_ne_azi ind h.neg hA, a1] at hbound
+    have hs := val_sign s m e
+    unfold rtBound
+    rw [hsc]
+    rw [← hs] at hbound
+    exact hbound
+
+theorem roundtrip_degree (s : Bool) (m : ℕ) (e : ℤ) (hx : F64.IsRep (F64.fin s m e)) (hb : |(F64.fin s m e).val| < 2 ^ 40)
+    (p : ℕ) (ind : Flag) (hind : ind = Flag.none ∨ ind = Flag.lat ∨ ind = Flag.lon) (sep : ℕ) (hsep : sep = 0 ∨ sep = 58) :
+    ∃ y : F64, decode (encode (F64.fin s m e) 0 p ind sep) = .ok (y, readFlag ind) ∧ y.isFinite = true ∧
+      |(y.val - (F64.fin s m e).val)| ≤ rtBound 0 p |(F64.fin s m e).val| := by
+  have hA : ind ≠ Flag.azi := by rcases hind with rfl | rfl | rfl <;> decide
+  have hN : ind ≠ Flag.num := by rcases hind with rfl | rfl | rfl <;> decide
+  have hb' : |(F64.fin s m e).val| < (2:ℚ) ^ (1024:ℤ) := by
+    have h1 : (2:ℚ) ^ (40:ℕ) < (2:ℚ) ^ (1024:ℤ) := by
+      rw [← zpow_natCast]; exact Dy.two_zpow_lt_iff.mpr (by norm_num)
+    exact lt_trans hb h1
+  obtain ⟨D, M, S, F, hD, hM, hS, hF, nD, nM, nS, hl, v1, v2, v3, v4, henc⟩ := encode_shape s m e 0 p ind sep (by omega)
+  obtain ⟨a1, a2, a3, a4, a5, a6⟩ := encodeHead_bound_deg s m e hx hb' p ind hA
+  have hsc : ((scaleOf 0 : ℕ) : ℚ) = 1 := by simp [scaleOf, DMSC.compMINUTE, DMSC.compSECOND]
+  generalize hh : encodeHead (F64.fin s m e) 0 p ind = h at *
+  have e1 : (encFields h 0).1 = h.units / 10 ^ clampPrec 0 p := by simp [encFields, a2]
+  have e4 : (encFields h 0).2.2.2 = h.units % 10 ^ clampPrec 0 p := by simp [encFields, a2]
+  rw [e1] at v1; rw [e4] at v4
+  have hsl : slotsOf 0 D M S F = { d := lastNum D F } := rfl
+  have hp10 : (0:ℚ) < 10 ^ clampPrec 0 p := by positivity
+  have hVeq : numVal (lastNum D F) + numVal ({} : Num) / 60 + numVal ({} : Num) / 3600 =
+      (h.units : ℚ) / 10 ^ clampPrec 0 p := by
+    rw [numVal_lastNum, numVal_empty, v1, v4, hl, zero_div, zero_div, add_zero, add_zero]
+    exact printed_degree h.units (clampPrec 0 p)
+  have hV : |(numVal (lastNum D F) + numVal ({} : Num) / 60 + numVal ({} : Num) / 3600 - |(F64.fin s m e).val|)| ≤
+      (1 / 2) / (1 * 10 ^ clampPrec 0 p) + (2:ℚ) ^ (-(53:ℤ)) := by
+    rw [hVeq, one_mul]
+    have := two_m53_pos
+    linarith
+  have hDlt : digitsVal 0 D < 2 ^ 41 := by
+    rw [v1]
+    have h1 : ((h.units / 10 ^ clampPrec 0 p : ℕ) : ℚ) ≤ (h.units : ℚ) / 10 ^ clampPrec 0 p := by
+      rw [le_div_iff₀ hp10]
+      have := Nat.div_mul_le_self h.units (10 ^ clampPrec 0 p)
+      exact_mod_cast this
+    have h2 := (abs_le.mp a6).2
+    have h3 : (1:ℚ) / 2 / 10 ^ clampPrec 0 p ≤ 1 / 2 := by
+      rw [div_le_iff₀ hp10]
+      have : (1:ℚ) ≤ 10 ^ clampPrec 0 p := one_le_pow₀ (by norm_num)
+      linarith
+    have h4 : ((h.units / 10 ^ clampPrec 0 p : ℕ) : ℚ) < ((2 ^ 41 : ℕ) : ℚ) := by
+      push_cast
+      have : (2:ℚ) ^ 40 + 1 / 2 < 2 ^ 41 := by norm_num
+      linarith
+    exact_mod_cast h4
+  obtain ⟨v, hv, hfin, hbound⟩ := roundtrip_core (readNeg ind h.neg) (slotsOf 0 D M S F) |(F64.fin s m e).val|
+    ((1 / 2) / (1 * 10 ^ clampPrec 0 p) + (2:ℚ) ^ (-(53:ℤ)))
+    (by rw [hsl]; show (lastNum D F).int < 2 ^ 41; rw [lastNum_int]; exact hDlt)
+    (by rw [hsl]; show (0:ℕ) < 60; omega)
+    (by rw [hsl]; show (0:ℕ) < 60; omega)
+    (by rw [hsl]; exact numOK_lastNum D F hF (by rw [hl]; exact clampPrec_le15 0 p))
+    (by rw [hsl]; exact numOK_empty) (by rw [hsl]; exact numOK_empty)
+    (by rw [hsl]; intro hne; exact absurd numVal_empty hne)
+    (by rw [hsl]; intro hne; exact absurd numVal_empty hne) (by rw [hsl]; exact hV)
+  refine ⟨F64.add F64.nzero v, ?_, hfin, ?_⟩
+  · rw [henc]
+    exact decode_layout 0 sep D M S F ind h.neg v (by omega) hsep hN hD hM hS hF nD nM nS hv
+  · rw [readNeg_of_ne_azi ind h.neg hA, a1] at hbound
+    have hs := val_sign s m e
+    unfold rtBound
+    rw [hsc]
+    rw [← hs] at hbound
+    exact hbound
+
+/-- **the round trip, all three trailing units** -/
+theorem roundtrip_all (s : Bool) (m : ℕ) (e : ℤ) (hx : F64.IsRep (F64.fin s m e)) (hb : |(F64.fin s m e).val| < 2 ^ 40)
+    (t p : ℕ) (ht : t ≤ 2) (ind : Flag) (hind : ind = Flag.none ∨ ind = Flag.lat ∨ ind = Flag.lon) (sep : ℕ)
+    (hsep : sep = 0 ∨ sep = 58) :
+    ∃ y : F64, decode (encode (F64.fin s m e) t p ind sep) = .ok (y, readFlag ind) ∧ y.isFinite = true ∧
+      |(y.val - (F64.fin s m e).val)| ≤ rtBound t p |(F64.fin s m e).val| := by
+  have ht' : t = 0 ∨ t = 1 ∨ t = 2 := by omega
+  rcases ht' with rfl | rfl | rfl
+  · exact roundtrip_degree s m e hx hb p ind hind sep hsep
+  · exact roundtrip_minute s m e hx hb p ind hind sep hsep
+  · exact roundtrip_second s m e hx hb p ind hind sep hsep
+
+
+/-! ## `Utility::val (Utility::str x p)` -/
+
+theorem utilVal_utilStr (s : Bool) (m : ℕ) (e : ℤ) (hb : |(F64.fin s m e).val| ≤ 2 ^ 52) (p : ℕ) (hp : p ≤ 30) :
+    ∃ y : F64, utilVal (utilStr (F64.fin s m e) p) = .ok y ∧ y.isFinite = true ∧
+      |(y.val - (F64.fin s m e).val)| ≤ (1 / 2) / 10 ^ p + (2:ℚ) ^ (-(53:ℤ)) * (|(F64.fin s m e).val| + 1) := by
+  obtain ⟨hfin, hbound⟩ := ofDec_fixedUnits (F64.fin s m e) rfl hb p hp
+  have hstr : utilStr (F64.fin s m e) p = fmtFixed (F64.fin s m e) p := rfl
+  have htrim : trim (fmtFixed (F64.fin s m e) p) = fmtFixed (F64.fin s m e) p := trim_noop _ (fmtFixed_nospace _ p)
+  have hval := valPlain_fmtFixed s m e p
+  have hof : ofDecExp (fixedUnits (F64.fin s m e) p) (0 - (p : ℤ)) = ofDec (fixedUnits (F64.fin s m e) p) p := by
+    unfold ofDec; rw [Int.zero_sub]
+  rw [hof] at hval
+  obtain ⟨sv, mv, ev, hv⟩ := F64.exists_fin_of_isFinite _ hfin
+  rw [hv] at hval hbound
+  simp only at hval
+  refine ⟨if s then F64.neg (F64.fin sv mv ev) else F64.fin sv mv ev, ?_, ?_, ?_⟩
+  · unfold utilVal
+    simp only [hstr, htrim, hval]
+  · cases s <;> rfl
+  · have hs := val_sign s m e
+    cases s
+    · simp only [Bool.false_eq_true, if_false] at hs ⊢
+      rw [hs, abs_abs]; exact hbound
+    · simp only [if_true] at hs ⊢
+      rw [F64.neg_fin_val, hs, abs_neg, abs_abs]
+      have : -(F64.fin sv mv ev).val - -|(F64.fin true m e).val| = -((F64.fin sv mv ev).val - |(F64.fin true m e).val|) := by ring
+      rw [this, abs_neg]; exact hbound
 
 end GeoVerif.DMSProofs
